@@ -396,8 +396,11 @@ impl<'a, R: Rec> Engine<'a, R> {
         for l in &self.world {
             for (d, f) in l.model.fields.iter().enumerate() {
                 if let FState::Val(o) = f {
-                    if self.meta.data[d].tracked && o.inst != 0 {
+                    let inst = self.meta.data[d].instances;
+                    if inst == 1 && o.inst != 0 {
                         expected += 1;
+                    } else if inst > 1 {
+                        expected += inst;
                     }
                     if self.meta.data[d].counted_class != 0 {
                         *counted.entry(self.meta.data[d].counted_class).or_default() += 1;
@@ -787,14 +790,22 @@ impl<'a, R: Rec> Engine<'a, R> {
         self.meta.variants[model.variant]
             .fields
             .iter()
-            .filter(|&&d| {
+            .map(|&d| {
                 let m = &self.meta.data[d];
                 match model.fields[d] {
-                    FState::Val(o) => (m.tracked && o.inst != 0) || m.counted_class != 0,
-                    _ => false,
+                    FState::Val(o) => {
+                        if m.instances > 1 {
+                            m.instances
+                        } else if (m.tracked && o.inst != 0) || m.counted_class != 0 {
+                            1
+                        } else {
+                            0
+                        }
+                    }
+                    _ => 0,
                 }
             })
-            .count()
+            .sum()
     }
 
     fn do_clone(&mut self, r: u8, panic_at: u8, place: u8) {
@@ -934,6 +945,11 @@ impl<'a, R: Rec> Engine<'a, R> {
             let now = got.iter().find(|(_, dd, _)| *dd == d).map(|x| x.2);
             match (s, old, now) {
                 (FState::Uninit, _, _) => new_model.fields[d] = FState::Uninit,
+                (FState::Val(_), _, Some(o)) if panicked && self.meta.data[d].instances > 1 => {
+                    // a compound value (array of tokens) may legitimately be left half assigned by a panic
+                    // in the clone of one of its elements: nothing to compare, conservation still applies
+                    new_model.fields[d] = FState::Val(o);
+                }
                 (FState::Val(sv_), _, Some(o)) => {
                     let is_new = o.pay == sv_.pay && (!self.meta.data[d].tracked || sv_.inst == 0 || (o.inst != sv_.inst && ledger::is_live(o.inst) && (o.inst >= next_before || FState::Val(o) == old)));
                     let is_old = FState::Val(o) == old;
